@@ -144,6 +144,33 @@ def run_tree(rec, tier, seed, ti, spec, t, log, lf):
             n_lines = lf.count
             rec.case((ti, name, repr(obj), mode, "ser-clean"), nontrivial=log.max_depth > 1)
             flush_leaks(rec, log, t, ti, name, "clean serialize", case)
+            # the nested classes (case data, struct fields) are public classes too: each nested instance is also
+            # serialized and deserialized on its own, entered with either mode
+            nested = []
+            br.walk(obj, real, lambda inst, cls, names, where: nested.append((inst, cls, where)) if (len(cls) > 1 or where) else None)
+            for inst, cls, where in nested[:6]:
+                NC = type(inst)
+                for m2 in (False, True):
+                    w2 = t.EoWriter()
+                    w2.string_sanitization_mode = m2
+                    try:
+                        NC.serialize(w2, inst)
+                    except (ValueError, t.SerializationError):
+                        pass
+                    except Exception as e:
+                        rec.count("other-exception-during-serialize:" + type(e).__name__)
+                    rec.count("nested-classes-entered-directly")
+                    flush_leaks(rec, log, t, ti, name, "nested %s%s serialized directly (entry mode %r)" % (".".join(cls), where, m2), case)
+                    d2 = bytes(w2.to_bytearray())
+                    r2 = t.EoReader(d2)
+                    r2.chunked_reading_mode = m2
+                    m2r = RefReader(d2)
+                    m2r.chunked = m2
+                    try:
+                        NC.deserialize(LockstepReader(r2, m2r, fuel=6 * len(d2) + 5000))
+                    except (Exception, FuelExhausted, Divergence, InjectedFault):
+                        pass
+                    flush_leaks(rec, log, t, ti, name, "nested %s%s deserialized directly (entry mode %r)" % (".".join(cls), where, m2), case)
             for k in indices(n_ops, CAP[tier], rng):
                 ser(fail_at=k)
                 rec.count("fault-runs")
